@@ -18,6 +18,7 @@ pub mod g {
     pub mod a_b_s { include!(concat!(env!("OUT_DIR"), "/a.b.S.rs")); }
     #[allow(non_camel_case_types)]
     pub mod a_lower { include!(concat!(env!("OUT_DIR"), "/a.s.rs")); }
+    pub mod long { include!(concat!(env!("OUT_DIR"), "/lab.routing.longnames.v1.ServiceWithAVeryLongName.rs")); }
 }
 
 #[derive(Clone)]
@@ -41,6 +42,18 @@ impl_h!(g::a_s2::s2_server::S2);
 impl_h!(g::bare_s::s_server::S);
 impl_h!(g::a_b_s::s_server::S);
 impl_h!(g::a_lower::s_server::s);
+#[tonic::async_trait]
+impl g::long::service_with_a_very_long_name_server::ServiceWithAVeryLongName for H {
+    async fn m_upper(&self, r: Request<Vec<u8>>) -> Result<Response<Vec<u8>>, Status> { self.hit("M", &r) }
+    async fn m_two(&self, r: Request<Vec<u8>>) -> Result<Response<Vec<u8>>, Status> { self.hit("M2", &r) }
+    async fn m_lower(&self, r: Request<Vec<u8>>) -> Result<Response<Vec<u8>>, Status> { self.hit("m", &r) }
+    async fn l63(&self, r: Request<Vec<u8>>) -> Result<Response<Vec<u8>>, Status> { self.hit("L63", &r) }
+    async fn l64(&self, r: Request<Vec<u8>>) -> Result<Response<Vec<u8>>, Status> { self.hit("L64", &r) }
+    async fn l65(&self, r: Request<Vec<u8>>) -> Result<Response<Vec<u8>>, Status> { self.hit("L65", &r) }
+    async fn l128(&self, r: Request<Vec<u8>>) -> Result<Response<Vec<u8>>, Status> { self.hit("L128", &r) }
+    async fn l129(&self, r: Request<Vec<u8>>) -> Result<Response<Vec<u8>>, Status> { self.hit("L129", &r) }
+    async fn l300(&self, r: Request<Vec<u8>>) -> Result<Response<Vec<u8>>, Status> { self.hit("L300", &r) }
+}
 
 /// A request body whose one DATA frame has arrived and whose end has not: pending for good after the frame.
 pub struct OpenBody(Option<Bytes>);
@@ -70,6 +83,7 @@ pub fn build_routes_opt(reg: &[String], log: &Rec, via_builder: bool, intercepte
             "S" => add!(g::bare_s::s_server::SServer::new(H { svc: "S", log: log.clone() })),
             "a.b.S" => add!(g::a_b_s::s_server::SServer::new(H { svc: "a.b.S", log: log.clone() })),
             "a.s" => add!(g::a_lower::s_server::sServer::new(H { svc: "a.s", log: log.clone() })),
+            "long" => add!(g::long::service_with_a_very_long_name_server::ServiceWithAVeryLongNameServer::new(H { svc: "long", log: log.clone() })),
             other => panic!("unknown service {other}"),
         }
     }
@@ -111,6 +125,7 @@ fn run_via_server(stim: &Value, rec: &Rec) {
                 "S" => reg!(how, g::bare_s::s_server::SServer::new(H { svc: "S", log: log.clone() }), g::bare_s::s_server::SServer<H>),
                 "a.b.S" => reg!(how, g::a_b_s::s_server::SServer::new(H { svc: "a.b.S", log: log.clone() }), g::a_b_s::s_server::SServer<H>),
                 "a.s" => reg!(how, g::a_lower::s_server::sServer::new(H { svc: "a.s", log: log.clone() }), g::a_lower::s_server::sServer<H>),
+                "long" => reg!(how, g::long::service_with_a_very_long_name_server::ServiceWithAVeryLongNameServer::new(H { svc: "long", log: log.clone() }), g::long::service_with_a_very_long_name_server::ServiceWithAVeryLongNameServer<H>),
                 other => panic!("unknown service {other}"),
             }
         }
